@@ -413,5 +413,5 @@ void bad_argument (svalue_t * val, int type, int arg, int instr) {
   strncpy (msg, outbuf.buffer, sizeof(msg)-1);
   FREE_MSTR (outbuf.buffer);
 
-  error (msg);
+  error ("%s", msg);
 }
